@@ -629,6 +629,9 @@ def run(ctx):
     # ---- other entry points
     run_bufferless_and_legacy(ctx, rng, tie, cd, streams, 24 * k)
     run_window_tie(ctx, rng, tie, cd, 60 * k)
+    nst = cc.run_store_tie(ctx, rng, tie, 60 * k)
+    ctx.notes["store_tie_histories_byte_equal"] = nst
+    core.log("store tie: %d histories byte-equal" % nst)
     if not ctx.quick:
         # supporting test: the same harness under ASan+UBSan on a sample of the histories
         atie = st.Tie(ctx, variant="asan")
